@@ -37,8 +37,16 @@ var guardSpecs = []*GuardSpec{
 		Fields: map[string]string{"last": "Frames.last", "size": "Frames.size", "ns": "Frames.ns"}},
 }
 
+// Publish-once structs: a *Client is built by one goroutine and then handed to the hub (register channel); the
+// hub's readers (GetStats, statsReporter) read its fields under Hub.mu only. The discipline: fields are assigned
+// only while the object is still private to the function that created it - never after it has been sent,
+// passed on, stored or captured. A later write is emitted as a write to a field nothing guards (rejected).
+var publishOnce = []struct{ PkgDir, Type string }{
+	{"internal/crossbar", "Client"},
+}
+
 // packages translated, in dependency order
-var targetDirs = []string{"internal/ttlcode", "internal/deny", "internal/chanmap", "internal/crossbar"}
+var targetDirs = []string{"internal/ttlcode", "internal/deny", "internal/chanmap", "internal/crossbar", "internal/access", "internal/relay"}
 
 func guardMap() (map[string]string, map[string]int) {
 	g, r := map[string]string{}, map[string]int{}
